@@ -18,6 +18,7 @@ class Scenario:
         self.dest_root = os.path.join(d, "dest")
         self.ws = os.path.join(d, "ws")
         self.dest_kind = dest_kind or rng.choice(["remote", "remote", "local"])
+        self.with_obj_names = rng.random() < 0.3
         pool = [gen.small_content(rng) for _ in range(rng.randrange(1, 5))]
         if rng.random() < 0.4:
             pool.append(gen.mined_00(rng))
@@ -90,7 +91,13 @@ class Scenario:
             denoted.add(t["oid"])
             denoted |= set(t["listing"].values())
             if not expanded:
-                ids |= {env.HI("md5", v) for v in t["listing"].values()}
+                if self.with_obj_names:
+                    # request ids as dvc's used-object collection hands them over: carrying the name of the path they came from
+                    from dvc_data.hashfile.hash_info import HashInfo as _HI
+
+                    ids |= {_HI("md5", v, obj_name=f"data/{rel}") for rel, v in t["listing"].items()}
+                else:
+                    ids |= {env.HI("md5", v) for v in t["listing"].values()}
         for o in self.single_files:
             ids.add(env.HI("md5", o))
             denoted.add(o)
